@@ -180,6 +180,12 @@ func SafeDiv[T Integer](x T, y T) (T, error) {
 		return 0, ierrors.WithMessagef(ErrIntegerDivisionByZero, "%d / %d", x, y)
 	}
 
+	// MinInt / -1 is the only quotient that is not representable (it wraps back to MinInt).
+	var zero T
+	if minusOne := zero - 1; minusOne < zero && y == minusOne && x < zero && zero-x == x {
+		return 0, ierrors.WithMessagef(ErrIntegerOverflow, "%d / %d", x, y)
+	}
+
 	return x / y, nil
 }
 
